@@ -366,7 +366,8 @@ def obligations():
 # ----------------------------------------------------------------------------- O7.6 no type parameter survives anywhere inside the body of an instance
 FORMS_76 = {'var': ('T', 'x'), 'tuple': ('(T, T)', '(x, x)'), 'array': ('[T; 2]', '[x, x]'), 'array-of-tuples': ('[(T, T); 1]', '[(x, x)]'), 'closure': ('(T) -> T', '|z: T| z'),
             'let': ('T', '{ let w = x; w }'), 'if': ('T', 'if true { x } else { x }'), 'proj': ('T', '(x, x).0'),
-            'tuple-of-arrays': ('([T; 2], T)', '([x, x], x)'), 'closure-array': ('(T) -> [T; 1]', '|z: T| [z]')}
+            'tuple-of-arrays': ('([T; 2], T)', '([x, x], x)'), 'closure-array': ('(T) -> [T; 1]', '|z: T| [z]'),
+            'self-call': ('T', 'g(x)'), 'match-default': ('T', 'match x { _ => x }'), 'let-tuple': ('(T, T)', '{ let w = (x, x); w }')}
 def replay_body_types(form):
     rt, ex_ = FORMS_76[form]
     src = 'fn g[T](x: T) -> %s { %s }\nfn main() -> unit { let a = g(1); let b = g("s"); () }\n' % (rt, ex_)
@@ -420,6 +421,12 @@ def ob_mono_body_types(r, tier, seed):
         elif form == 'let': rt = tp; e = E('ELet', name=mkstr('w'), value=mkbox(x()), body=mkbox(E('EVar', name=mkstr('w'), ty=tp)), ty=tp)
         elif form == 'if': rt = tp; e = E('EIf', cond=mkbox(E('EPrim', value=Agg(PR.key, PR.vindex('Bool'), [True]), ty=bl)), then_branch=mkbox(x()), else_branch=mkbox(x()), ty=tp)
         elif form == 'proj': rt = tp; e = E('EProj', tuple=mkbox(E('ETuple', items=PyVec([x(), x()]), ty=tup([tp, tp]))), index=0, ty=tp)
+        elif form == 'self-call':
+            rt = tp; e = E('ECall', func=mkbox(E('EVar', name=mkstr('g'), ty=fun([tp], tp))), args=PyVec([x()]), ty=tp)
+        elif form == 'match-default':
+            rt = tp; e = E('EMatch', expr=mkbox(x()), arms=PyVec([]), default=ms.some(mkbox(x())), ty=tp)
+        elif form == 'let-tuple':
+            rt = tup([tp, tp]); e = E('ELet', name=mkstr('w'), value=mkbox(E('ETuple', items=PyVec([x(), x()]), ty=rt)), body=mkbox(E('EVar', name=mkstr('w'), ty=rt)), ty=rt)
         else:      # unused: a call of a local closure takes the `or_else` closure in mono_expr whose captured operand the textual MIR dump drops (DESIGN 5.2)
             rt = tp; e = E('ELet', name=mkstr('f'), value=mkbox(clo(z(), tp)), body=mkbox(E('ECall', func=mkbox(E('EVar', name=mkstr('f'), ty=fun([tp], tp))), args=PyVec([x()]), ty=tp)), ty=tp)
         g = fn('g', [('x', tp)], rt, e)
